@@ -289,6 +289,78 @@ class Readers(Family):
 
 
 @register
+class Iteration(Family):
+    """iteration and tolist: the k-th row handed out by `for row in ra` is the k-th row of the geometry, for an ARBITRARY k.  `__iter__` is a generator
+    expression over zip(starts, lengths): the real generator runs with both arrays yielding their element at the same symbolic index k (0 <= k < n), the
+    obligations say that the arrays iterated in lock-step have one entry per row (so there are exactly n iterations, CPython's zip) and that the row
+    produced for k has L(k) cells, cell c being D[S(k) + c].  tolist() builds its list from the same iteration."""
+    name = "RaggedArray.__iter__/tolist"
+    qualname = "npstructures.raggedarray:RaggedArray.__iter__"
+    serves = ["C01", "C19"]
+    assumed = ["CPython iteration protocol: zip(a, b) pairs the k-th elements and stops with the shorter; a generator expression carries no state from one "
+               "iteration to the next, so one arbitrary iteration stands for all", "ndarray.tolist() lists the array's elements in order"]
+
+    def kinds(self):
+        return ["iter", "tolist"]
+
+    def extra_functions(self):
+        return ["RaggedArray.tolist", "RaggedBase.ravel"]
+
+    def run(self, ctx, kind):
+        from ..sym.arr import SymPyList
+        g = sym_ragged(ctx, kind="elem")
+        k = z3.Int("k")
+        ctx.assume(z3.And(0 <= k, k < g.n))
+        ctx.add_index(k, k + 1)
+        gi = {"k": k, "arrays": []}
+        ctx.ghost["generic_iteration"] = gi
+        try:
+            if kind == "iter":
+                rows = list(iter(g.ra))
+            else:
+                rows = g.ra.tolist()
+        finally:
+            del ctx.ghost["generic_iteration"]
+        ok = isinstance(rows, list) and len(rows) == 1 and len(gi["arrays"]) >= 1
+        ctx.prove("post.one row per iteration", z3.BoolVal(ok))
+        if not ok:
+            return
+        ctx.prove("post.exactly n iterations: every array iterated in lock-step has one entry per row",
+                  z3.And(*[z3.And(z3.BoolVal(a.ndim == 1), dim_term(a.shape_[0]) == g.n) for a in gi["arrays"]]))
+        row = rows[0]
+        if kind == "tolist":
+            ctx.prove("post.tolist: a list of the rows' own lists", z3.BoolVal(isinstance(row, SymPyList)))
+            if not isinstance(row, SymPyList):
+                return
+            row = row.arr
+        ctx.prove("post.row k has L(k) cells", z3.And(z3.BoolVal(isinstance(row, SymArr) and row.ndim == 1), dim_term(row.shape_[0]) == g.L(k)), pool=[k, k + 1, g.n])
+        c = z3.Int("c")
+        ctx.skolem(z3.And(0 <= c, c < g.L(k)))
+        ctx.prove("post.row k, cell c == D[S(k) + c]", row.get(c) == g.D.fn(g.S(k) + c), pool=[k, k + 1, c, g.n])
+        ctx.prove("post.element type kept, operand not modified", z3.BoolVal(row.dtype == g.D.dtype and g.D.buf.writes == 0))
+
+    def concretise(self, kind, model, ghost):
+        return {"lengths": [2, 0, 3, 1, 0]}
+
+    def concrete(self, case):
+        from npstructures import RaggedArray
+        ls = case["lengths"]
+        rows, v = [], 3
+        for l in ls:
+            rows.append([((v + i) * 7) % 11 - 3 for i in range(l)])
+            v += l
+        ra = RaggedArray(np.array([x for r in rows for x in r], dtype=np.int64), ls)
+        got = [np.asarray(r).tolist() for r in ra]
+        if got != rows or ra.tolist() != rows or len(list(iter(ra))) != len(ls):
+            return {"msg": f"iteration over RaggedArray with rows {rows}: {got}, tolist {ra.tolist()}", "sig": "wrong:iteration"}
+
+    def bounded_cases(self, tier, seed):
+        from ..bounded.common import length_vectors
+        for ls in length_vectors(4, 3):
+            yield {"lengths": ls}
+
+
+@register
 class NumpyRoundTrip(Family):
     name = "RaggedArray.to_numpy_array/from_numpy_array"
     qualname = "npstructures.raggedarray:RaggedArray.to_numpy_array"
